@@ -20,6 +20,7 @@ package basepathfs
 import (
 	"io/fs"
 	"os"
+	"strings"
 	"time"
 
 	"github.com/avfs/avfs"
@@ -189,8 +190,12 @@ func (vfs *BasePathFS) FromSlash(path string) string {
 // Getwd may return any one of them.
 func (vfs *BasePathFS) Getwd() (dir string, err error) {
 	dir, err = vfs.baseFS.Getwd()
+	if err != nil || !strings.HasPrefix(dir, vfs.basePath) {
+		// The current directory of the base file system is outside the base path : the virtual root.
+		return string(vfs.PathSeparator()), vfs.FromPathError(err)
+	}
 
-	return vfs.FromBasePath(dir), vfs.FromPathError(err)
+	return vfs.FromBasePath(dir), nil
 }
 
 // Glob returns the names of all files matching pattern or nil
